@@ -19,15 +19,20 @@
 // Function names are `derive<Plugin><suffix>`, one name per (plugin, argument types) of the new version
 // (a second call for the same types uses the same name, as a user has to); a share of the scenarios
 // breaks this on purpose (another name for the same types; one name for two argument type lists).
-// A call with an argument that waits for another derive call never bears a name a helper function could
-// be given (the bare prefix, prefix_…): see .work/new-defects-regen.md. Bare prefixes are used for calls
-// whose arguments are all typed by the user.
+// Bare prefixes (`deriveKeys`: the README's spelling) are used for a share of the calls, also for calls with
+// an argument that waits for another derive call while a call of another plugin asks, in the same pass, for a
+// helper function of that very plugin (F78: the helper must not take the waiting call's name).
 //
 // No two types of the universe are assignable to each other (no named type shares its underlying type
 // with an unnamed type of the universe in a position where one function could serve both).
 //
 // Flags: -out DIR -seed N [-n COUNT] [-thorough]   (-harness, -plugins are accepted and ignored)
-// Output: DIR/scenarios.json, DIR/stats.json. Every random choice comes from one rand.New(rand.NewSource(seed)).
+// Second family (DIR/multi.json, -multi COUNT): several packages in ONE invocation, every derived.gen.go absent:
+// 2-3 packages with derive calls in an import chain, each starting from the exported result of the previous one,
+// directly or through a package without derive calls that is not named on the command line; the package names
+// are drawn so that the path order often contradicts the import order.
+//
+// Output: DIR/scenarios.json, DIR/multi.json, DIR/stats.json. Every random choice comes from one rand.New(rand.NewSource(seed)).
 package main
 
 import (
@@ -419,10 +424,11 @@ func instantiate(sh shape, ch choice) version {
 // ---------------------------------------------------------------- random shapes
 
 type gen struct {
-	r     *rand.Rand
-	names map[string]string // plugin + "|" + argument types of the NEW version -> name
-	used  map[string]bool
-	feats map[string]bool
+	r      *rand.Rand
+	names  map[string]string // plugin + "|" + argument types of the NEW version -> name
+	used   map[string]bool
+	feats  map[string]bool
+	wanted []string // plugins of waiting calls with bare-prefix names whose result flows on
 }
 
 func (g *gen) pick(xs []string) string { return xs[g.r.Intn(len(xs))] }
@@ -434,8 +440,9 @@ func (g *gen) elem(allowNamed bool) string {
 	return g.pick(scalars)
 }
 
-// name of the function for (plugin, argument types): one name per pair, unless the scenario breaks it on purpose
-func (g *gen) nameFor(plugin, sig, suffix string, deferred bool) string {
+// name of the function for (plugin, argument types): one name per pair, unless the scenario breaks it on purpose.
+// waits: the call has an argument that waits for another derive call; flowsOn: its result is read by another call.
+func (g *gen) nameFor(plugin, sig, suffix string, waits, flowsOn bool) string {
 	k := plugin + "|" + sig
 	if n, ok := g.names[k]; ok {
 		if g.r.Intn(100) < 4 {
@@ -448,25 +455,75 @@ func (g *gen) nameFor(plugin, sig, suffix string, deferred bool) string {
 	n := "derive" + plugin + suffix
 	if g.r.Intn(100) < 3 {
 		// one name for two argument type lists of one plugin
-		for k2, n2 := range g.names {
-			if strings.HasPrefix(k2, plugin+"|") && (!deferred || !helperShaped(n2, plugin)) {
-				g.feats["conflicting-name"] = true
-				n = n2
-				break
+		var ks []string
+		for k2 := range g.names {
+			if strings.HasPrefix(k2, plugin+"|") {
+				ks = append(ks, k2)
 			}
 		}
+		sort.Strings(ks)
+		if len(ks) > 0 {
+			g.feats["conflicting-name"] = true
+			n = g.names[ks[g.r.Intn(len(ks))]]
+		}
 	}
-	if !deferred && g.r.Intn(100) < 30 && !g.used["derive"+plugin] {
+	bare := 30
+	if waits && flowsOn && helperRequesters[plugin] != nil {
+		// the README's spelling for a call that waits for a type while another plugin asks for a helper of this
+		// plugin in the same pass (F78: the helper must not take the waiting call's name)
+		bare = 55
+	}
+	if g.r.Intn(100) < bare && !g.used["derive"+plugin] {
 		n = "derive" + plugin
 		g.feats["bare-prefix-name"] = true
+		if waits {
+			g.feats["bare-prefix-name-on-waiting-call"] = true
+			if flowsOn && helperRequesters[plugin] != nil {
+				g.wanted = append(g.wanted, plugin)
+			}
+		}
 	}
 	g.used[n] = true
 	g.names[k] = n
 	return n
 }
 
-func helperShaped(name, plugin string) bool {
-	return name == "derive"+plugin || strings.HasPrefix(name, "derive"+plugin+"_")
+// plugin -> (plugin, start kind) of a call whose generation asks for a helper function of that plugin
+var helperRequesters = map[string][][2]string{
+	"Keys":     {{"Unique", "slice"}, {"Hash", "map"}},
+	"Set":      {{"Unique", "slice"}},
+	"Contains": {{"Union", "slice"}, {"Intersect", "slice"}},
+	"Min":      {{"Intersect", "slice"}},
+	"Compare":  {{"Compare", "slice"}},
+	"Sort":     {{"Hash", "map"}, {"Compare", "map"}},
+	"Hash":     {{"Hash", "strings"}},
+}
+
+// a chain of one call, typed by the user, whose generation asks for a helper of the wanted plugin
+func (g *gen) requester(idx int, file, wanted string, ch *choice) chain {
+	rq := helperRequesters[wanted][g.r.Intn(len(helperRequesters[wanted]))]
+	c := chain{idx: idx, file: file, startPkg: true, start: rq[1]}
+	ch.startElem[idx] = g.pick(scalars)
+	var cur ty
+	switch rq[1] {
+	case "map":
+		ch.startVal[idx] = g.pick([]string{"int", "string", "bool"})
+		cur = mapOf(ch.startElem[idx], ch.startVal[idx])
+	case "strings":
+		c.start = "slice"
+		ch.startElem[idx] = "string"
+		cur = slice("string")
+	default:
+		cur = slice(ch.startElem[idx])
+	}
+	st := step{plugin: rq[0], bind: "end"}
+	if rq[0] == "Union" || rq[0] == "Intersect" || rq[0] == "Compare" {
+		st.twice = g.r.Intn(2) == 0
+	}
+	st.name = g.nameFor(rq[0], cur.String(), fmt.Sprintf("C%dS0", idx), false, false)
+	c.steps = []step{st}
+	g.feats["helper-of-a-waiting-call's-plugin"] = true
+	return c
 }
 
 // builds one chain (shape and the type choices of the new version)
@@ -506,6 +563,9 @@ func (g *gen) chain(idx int, file string, depth int, ch *choice, forceNamed bool
 	}
 	pkgOK := c.start != "mystery"
 	deferred := c.start == "mystery"
+	// one expression: every call but the last is nested in the next one (3-4 calls deep when the chain is that long)
+	allNested := g.r.Intn(100) < 22
+	nestedRun := 0
 	for si := 0; si < depth; si++ {
 		last := si == depth-1
 		var plugin string
@@ -558,7 +618,7 @@ func (g *gen) chain(idx int, file string, depth int, ch *choice, forceNamed bool
 				g.feats["fixed-second-argument"] = true
 			}
 		}
-		st.name = g.nameFor(plugin, sig, fmt.Sprintf("C%dS%d", idx, si), deferred)
+		st.name = g.nameFor(plugin, sig, fmt.Sprintf("C%dS%d", idx, si), deferred, !last)
 		isConsumer := next.kind == 0 && (plugin == "Equal" || plugin == "Compare" || plugin == "Hash" || plugin == "Contains" || plugin == "Any" || plugin == "All")
 		switch {
 		case last || isConsumer || misapplied:
@@ -569,7 +629,7 @@ func (g *gen) chain(idx int, file string, depth int, ch *choice, forceNamed bool
 		default:
 			x := g.r.Intn(100)
 			switch {
-			case x < 35:
+			case x < 35 || allNested:
 				st.bind = "nested"
 			case x < 60 && pkgOK:
 				st.bind = "pkg"
@@ -582,6 +642,15 @@ func (g *gen) chain(idx int, file string, depth int, ch *choice, forceNamed bool
 		c.steps = append(c.steps, st)
 		if st.bind == "nested" {
 			g.feats["nested-call"] = true
+			nestedRun++
+			if nestedRun >= 2 && si+1 < depth {
+				g.feats["nested-3-deep"] = true
+			}
+			if nestedRun >= 3 && si+1 < depth {
+				g.feats["nested-4-deep"] = true
+			}
+		} else {
+			nestedRun = 0
 		}
 		if st.bind == "pkg" {
 			g.feats["package-level-variable"] = true
@@ -683,6 +752,7 @@ func (g *gen) scenario(id int) scenario {
 	g.names = map[string]string{}
 	g.used = map[string]bool{}
 	g.feats = map[string]bool{}
+	g.wanted = nil
 	kinds := []string{"absent", "absent", "same", "same", "retyped", "retyped", "retyped", "retyped", "retyped", "retyped",
 		"renamed", "extra", "extra", "missing", "missing", "retyped-dropped", "retyped-dropped", "same-dropped", "emptied"}
 	kind := g.pick(kinds)
@@ -705,6 +775,11 @@ func (g *gen) scenario(id int) scenario {
 			depth = 2 + g.r.Intn(3)
 		}
 		sh.chains = append(sh.chains, g.chain(i, files[g.r.Intn(len(files))], depth, &ch, kind == "renamed" && i == 0))
+	}
+	for _, w := range g.wanted {
+		if g.r.Intn(100) < 70 {
+			sh.chains = append(sh.chains, g.requester(len(sh.chains), files[g.r.Intn(len(files))], w, &ch))
+		}
 	}
 	sc := scenario{ID: fmt.Sprintf("s%d", id), OldKind: kind, Depth: depthOf(sh)}
 	sc.New = instantiate(sh, ch)
@@ -791,10 +866,210 @@ func (g *gen) scenario(id int) scenario {
 	return sc
 }
 
+// ---------------------------------------------------------------- several packages in one invocation
+
+type mpkg struct {
+	Name    string            `json:"name"`
+	Imports []string          `json:"imports"` // package names (import path rg/<name>)
+	Named   bool              `json:"named"`   // listed on the command line
+	Files   map[string]string `json:"files"`
+	Calls   []absCall         `json:"calls"` // names and `r` references qualified: <package>.<function>
+}
+
+type multi struct {
+	ID       string   `json:"id"`
+	Packages []mpkg   `json:"packages"` // in dependency order: a package imports earlier ones only
+	Args     []string `json:"args"`     // command line, in listing order
+	Features []string `json:"features"`
+}
+
+// A chain of 2-3 packages with derive calls; each exports `Out`, the result of its last producing call, and the
+// next one starts from it — directly, or through a package WITHOUT derive calls that re-exports it
+// (`var Out = index.Out`) and that is not named on the command line. Every derived.gen.go is absent at the
+// start: whether one run suffices depends on the order in which the named packages are generated.
+func (g *gen) multi(id int) multi {
+	feats := map[string]bool{}
+	pool := []string{"app", "bus", "catalog", "depot", "engine", "index", "jobs", "kit", "lib", "model"}
+	g.r.Shuffle(len(pool), func(i, j int) { pool[i], pool[j] = pool[j], pool[i] })
+	m := multi{ID: fmt.Sprintf("m%d", id)}
+	nd := 2 + g.r.Intn(2)
+	var cur ty
+	prevPkg, prevFn := "", "" // the package whose Out is read next, the qualified function that types it
+	nameIdx := 0
+	for i := 0; i < nd; i++ {
+		name := pool[nameIdx]
+		nameIdx++
+		p := mpkg{Name: name, Named: true, Files: map[string]string{}, Calls: []absCall{}, Imports: []string{}}
+		var b strings.Builder
+		var decls []string
+		nv := 0
+		fresh := func(pfx string) string { nv++; return fmt.Sprintf("%s%d", pfx, nv) }
+		var flow expr
+		if i == 0 {
+			if g.r.Intn(2) == 0 {
+				cur = mapOf(g.pick(scalars), g.pick([]string{"int", "string", "bool"}))
+			} else {
+				cur = slice(g.pick(scalars))
+			}
+			v := fresh("in")
+			decls = append(decls, fmt.Sprintf("var %s %s", v, cur))
+			flow = expr{text: v, known: cur.String()}
+		} else {
+			p.Imports = []string{prevPkg}
+			flow = expr{text: prevPkg + ".Out", from: prevFn}
+		}
+		names := map[string]string{}
+		nameFor := func(plugin, sig string, si int) string {
+			if n, ok := names[plugin+"|"+sig]; ok {
+				return n
+			}
+			n := fmt.Sprintf("derive%sP%dS%d", plugin, i, si)
+			bare := false
+			for _, x := range names {
+				if x == "derive"+plugin {
+					bare = true
+				}
+			}
+			if !bare && g.r.Intn(100) < 40 {
+				n = "derive" + plugin
+			}
+			names[plugin+"|"+sig] = n
+			return n
+		}
+		var calls []absCall
+		steps := 1 + g.r.Intn(3)
+		var lastName string
+		for si := 0; si < steps; si++ {
+			plugin := g.pick(producers[cur.kind])
+			for plugin == "Min" || plugin == "Max" { // keep a slice or a map flowing
+				plugin = g.pick(producers[cur.kind])
+			}
+			res := g.pick(scalars)
+			next, _ := apply(plugin, cur, res)
+			var args []expr
+			sig := cur.String()
+			switch plugin {
+			case "Keys", "Sort", "Unique", "Set", "Clone":
+				args = []expr{flow}
+			case "Filter", "TakeWhile":
+				f := fresh("f")
+				decls = append(decls, fmt.Sprintf("func %s(a %s) bool %s", f, cur.elem, zeroBody("bool")))
+				args = []expr{{text: f, known: "func(" + cur.elem + ") bool"}, flow}
+			case "Fmap":
+				f := fresh("f")
+				decls = append(decls, fmt.Sprintf("func %s(a %s) %s %s", f, cur.elem, res, zeroBody(res)))
+				args = []expr{{text: f, known: "func(" + cur.elem + ") " + res}, flow}
+				sig = "func(" + cur.elem + ") " + res + "," + cur.String()
+			case "Union", "Intersect":
+				if g.r.Intn(2) == 0 {
+					args = []expr{flow, flow}
+				} else {
+					w := fresh("w")
+					decls = append(decls, fmt.Sprintf("var %s %s", w, cur))
+					args = []expr{flow, {text: w, known: cur.String()}}
+				}
+			}
+			qn := name + "." + nameFor(plugin, sig, si)
+			call := mkCall(qn[len(name)+1:], plugin, args...)
+			call.from = qn
+			call.call.Name = qn
+			lastName = qn
+			if si < steps-1 && g.r.Intn(2) == 0 {
+				flow = call // nested in the next call
+				feats["nested-call"] = true
+			} else {
+				v := fresh("t")
+				if si == steps-1 {
+					v = "Out"
+				}
+				decls = append(decls, fmt.Sprintf("var %s = %s", v, call.text))
+				collect(call, &calls)
+				flow = expr{text: v, from: qn}
+			}
+			cur = next
+		}
+		if g.r.Intn(100) < 50 {
+			// a consumer of the package's own result
+			w := fresh("w")
+			decls = append(decls, fmt.Sprintf("var %s %s", w, cur))
+			call := mkCall(nameFor("Equal", cur.String(), 8), "Equal", flow, expr{text: w, known: cur.String()})
+			call.call.Name = name + "." + call.call.Name
+			decls = append(decls, "var Ok = "+call.text)
+			collect(call, &calls)
+		}
+		if g.r.Intn(100) < 70 {
+			// a call that depends on nothing: the package always has something to generate
+			w := fresh("w")
+			t := slice(g.pick(scalars))
+			decls = append(decls, fmt.Sprintf("var %s %s", w, t))
+			call := mkCall(nameFor("Hash", t.String(), 9), "Hash", expr{text: w, known: t.String()})
+			call.call.Name = name + "." + call.call.Name
+			decls = append(decls, "var H = "+call.text)
+			collect(call, &calls)
+			feats["independent-call"] = true
+		}
+		// `r` references inside the package are qualified like the ones across packages
+		for ci := range calls {
+			for ai := range calls[ci].Args {
+				if r := calls[ci].Args[ai].R; r != "" && !strings.Contains(r, ".") {
+					calls[ci].Args[ai].R = name + "." + r
+				}
+			}
+		}
+		p.Calls = calls
+		fmt.Fprintf(&b, "package %s\n\n", name)
+		for _, imp := range p.Imports {
+			fmt.Fprintf(&b, "import \"rg/%s\"\n\n", imp)
+		}
+		for _, d := range decls {
+			b.WriteString(d + "\n\n")
+		}
+		p.Files[name+".go"] = b.String()
+		m.Packages = append(m.Packages, p)
+		prevPkg, prevFn = name, lastName
+		if i < nd-1 && g.r.Intn(100) < 55 {
+			// a package without derive calls that hands the value on
+			mid := pool[nameIdx]
+			nameIdx++
+			q := mpkg{Name: mid, Imports: []string{name}, Files: map[string]string{}, Calls: []absCall{}}
+			q.Files[mid+".go"] = fmt.Sprintf("package %s\n\nimport \"rg/%s\"\n\nvar Out = %s.Out\n", mid, name, name)
+			q.Named = g.r.Intn(100) < 25
+			if !q.Named {
+				feats["unnamed-intermediate"] = true
+			}
+			m.Packages = append(m.Packages, q)
+			prevPkg = mid
+		}
+	}
+	for _, p := range m.Packages {
+		if p.Named {
+			m.Args = append(m.Args, "./"+p.Name)
+		}
+	}
+	g.r.Shuffle(len(m.Args), func(i, j int) { m.Args[i], m.Args[j] = m.Args[j], m.Args[i] })
+	// does the path order differ from the dependency order?
+	for i := range m.Packages {
+		for j := i + 1; j < len(m.Packages); j++ {
+			if m.Packages[i].Named && m.Packages[j].Named && m.Packages[j].Name < m.Packages[i].Name {
+				feats["path-order-against-imports"] = true
+			}
+		}
+	}
+	for f := range feats {
+		m.Features = append(m.Features, f)
+	}
+	sort.Strings(m.Features)
+	if m.Features == nil {
+		m.Features = []string{}
+	}
+	return m
+}
+
 func main() {
 	out := flag.String("out", "", "output directory")
 	seed := flag.Int64("seed", 1, "seed")
 	n := flag.Int("n", 0, "number of scenarios (default: 300, thorough 4000)")
+	nm := flag.Int("multi", -1, "number of scenarios with several packages in one invocation (default: n/6)")
 	thorough := flag.Bool("thorough", false, "thorough tier")
 	flag.String("harness", "", "ignored")
 	flag.String("plugins", "", "ignored")
@@ -834,6 +1109,21 @@ func main() {
 			panic(err)
 		}
 	}
+	if *nm < 0 {
+		*nm = *n / 6
+	}
+	ms := []multi{}
+	stats["multi_features"] = map[string]int{}
+	stats["multi_packages"] = map[string]int{}
+	for i := 0; i < *nm; i++ {
+		m := g.multi(i)
+		ms = append(ms, m)
+		stats["multi_packages"][fmt.Sprint(len(m.Packages))]++
+		for _, f := range m.Features {
+			stats["multi_features"][f]++
+		}
+	}
 	write("scenarios.json", scs)
+	write("multi.json", ms)
 	write("stats.json", stats)
 }
